@@ -191,12 +191,57 @@ type vfArbCase struct {
 	Ops      []vfArbOp `json:"ops"`
 	Raw      vfRawResp `json:"raw"`
 	Snapshot bool      `json:"snapshot"` // an outer middleware has set a header before
+	// Gate = k > 0: while handler op k-1 (a write, writeheader or flush) is inside the underlying ResponseWriter,
+	// another goroutine tries to record the raw response. The handler's response has started by then.
+	Gate int `json:"gate,omitempty"`
 }
+
+// vfGateWriter calls hook from inside the next Write, WriteHeader or Flush of the underlying writer once armed.
+type vfGateWriter struct {
+	*httptest.ResponseRecorder
+	armed bool
+	hook  func()
+}
+
+func (g *vfGateWriter) gate() {
+	if g.armed {
+		g.armed = false
+		g.hook()
+	}
+}
+func (g *vfGateWriter) Write(b []byte) (int, error) { g.gate(); return g.ResponseRecorder.Write(b) }
+func (g *vfGateWriter) WriteHeader(code int)        { g.gate(); g.ResponseRecorder.WriteHeader(code) }
+func (g *vfGateWriter) Flush()                      { g.gate(); g.ResponseRecorder.Flush() }
 
 func vfRunArb(c vfArbCase, wrapped bool) (*httptest.ResponseRecorder, []string, error) {
 	var log []string
+	var gate *vfGateWriter
 	handler := http.Handler(http.HandlerFunc(func(w http.ResponseWriter, r *http.Request) {
-		for _, op := range c.Ops {
+		var concurrent chan struct{}
+		var line string
+		defer func() {
+			if concurrent != nil {
+				<-concurrent
+				log = append(log, line)
+			}
+		}()
+		for i, op := range c.Ops {
+			if gate != nil && i == c.Gate-1 {
+				gate.armed = true
+				gate.hook = func() {
+					// we are inside the underlying writer, called by the handler's goroutine
+					concurrent = make(chan struct{})
+					go func() {
+						defer close(concurrent)
+						err := setRawResponse(r.Context(), c.Raw.proto())
+						line = fmt.Sprintf("setraw=%v", err != nil)
+					}()
+					select {
+					case <-concurrent:
+					case <-time.After(300 * time.Millisecond): // setRawResponse waits for the write to return: let it
+					}
+				}
+			}
 			switch op.Op {
 			case "header":
 				w.Header().Set("X-Handler-"+op.Arg, "handler-value")
@@ -228,6 +273,11 @@ func vfRunArb(c vfArbCase, wrapped bool) (*httptest.ResponseRecorder, []string, 
 	if c.Snapshot {
 		rec.Header().Set("Vary", "Origin")
 	}
+	var w http.ResponseWriter = rec
+	if wrapped && c.Gate > 0 {
+		gate = &vfGateWriter{ResponseRecorder: rec}
+		w = gate
+	}
 	req := httptest.NewRequest(http.MethodPost, "/x", nil)
 	var err error
 	func() {
@@ -236,7 +286,7 @@ func vfRunArb(c vfArbCase, wrapped bool) (*httptest.ResponseRecorder, []string, 
 				err = fmt.Errorf("panic: %v", p)
 			}
 		}()
-		handler.ServeHTTP(rec, req)
+		handler.ServeHTTP(w, req)
 	}()
 	return rec, log, err
 }
@@ -386,6 +436,29 @@ func TestVerifC17Arbiter(t *testing.T) {
 				}
 				c.Ops = append(c.Ops, op)
 			}
+			if rapid.IntRange(0, 2).Draw(t, "gated") == 0 {
+				var writers []int
+				for i, op := range c.Ops {
+					if op.Op == "write" || op.Op == "writeheader" || op.Op == "flush" {
+						writers = append(writers, i)
+					}
+				}
+				if len(writers) > 0 {
+					// the raw response is recorded from another goroutine while one of the handler's writes is in flight
+					c.Gate = 1 + rapid.SampledFrom(writers).Draw(t, "gate")
+					var ops []vfArbOp
+					for i, op := range c.Ops {
+						if op.Op == "setraw" {
+							if i < c.Gate-1 {
+								c.Gate--
+							}
+							continue
+						}
+						ops = append(ops, op)
+					}
+					c.Ops = ops
+				}
+			}
 			return c
 		},
 		Check: vfArbCheck,
@@ -405,6 +478,9 @@ func TestVerifC17Arbiter(t *testing.T) {
 						first = "raw-first"
 					}
 				}
+			}
+			if c.Gate > 0 {
+				return []string{"raw-during-" + c.Ops[c.Gate-1].Op}, true
 			}
 			return []string{first}, hasWrite && hasRaw
 		},
